@@ -122,6 +122,10 @@ def run_case(i, seed, tier):
         h.extend(nops)
     ops = list(h.ops)
     h.sess.close()
+    if i % 5 == 3:
+        # a clock that runs while the image is edited and mastered (every reading one second later)
+        ops = [{'op': 'clock_tick', 'seconds': 1}] + ops
+        counters['running_clock_cases'] = 1
     counters['refused_by_library'] = len(h.refused)
     vio, img = check_history(cfg, ops, seed * 1000003 + i, counters)
     names = [o['op'] for o in ops]
